@@ -94,6 +94,25 @@
 (* member whose diagonal VARIES over the points (the replay probes the     *)
 (* declared class on the real kernel).                                     *)
 (*                                                                         *)
+(* RELATION BETWEEN THE INPUTS OF A DIAGONAL REQUEST.  'diag=True equals   *)
+(* the diagonal of the full matrix' is stated for kernel(x1, x2) with the   *)
+(* same number of rows, not only for x1 = x2: kernel(x1, x2).diagonal() is  *)
+(* a valid request on every square lazy tensor and asks the kernel for      *)
+(* diag=True with the two inputs it holds.  The implementations branch on   *)
+(* the relation (torch.equal(x1, x2) shortcuts, x2 = None), so the relation *)
+(* is a dimension of the case lattice: action Diag12(r), r in XRels =       *)
+(* 'same' (one tensor object twice), 'clone' (an equal copy), 'rows' (x2' = *)
+(* the first N1 rows of x2: another tensor with as many rows), and - when   *)
+(* the batch shapes of x1 and x2 differ - 'bcast' (XRelClass).  The replay  *)
+(* crosses it with the REQUEST FORM (kernel(x1, x2, diag=True) lazy and     *)
+(* eager, kernel(x1, x2).diagonal(), kernel.forward(.., diag=True)) on the  *)
+(* stub and on every zoo kernel.  DiagRelCover: the enumerated patterns and *)
+(* geometries reach every class, with x2' sharing NO and SOME rows with x1  *)
+(* at the same position.  REJECTED VARIANT: LKDiagShortcut, the diagonal of *)
+(* kernel(x1, x1) (the x1 = x2 branch answering every request): the         *)
+(* invariant DiagRelDiscriminates states that it agrees on 'same' / 'clone' *)
+(* and is refuted by EVERY 'rows' / 'bcast' case whose rows are not equal.  *)
+(*                                                                         *)
 (* PROPERTIES.  Agree: the label tensor the code produces is the           *)
 (* declarative one, for every operation valid for the shape.  The model    *)
 (* violates it; TLC's counterexamples are predictions which the replay     *)
@@ -754,6 +773,33 @@ Rel(op) ==
         /\ hist' = Append(hist, Record(op, <<>>, <<>>, e, m, ls, r.br, op, "none"))
   /\ steps' = steps + 1 /\ UNCHANGED <<pat, fam, chunk, geo, env>>
 
+\* ---- the relation between the two inputs of a diagonal request ------------------------------------------------------
+\* diag12(r): kernel(x1, xr, diag=True) / kernel(x1, xr).diagonal() / kernel.forward(x1, xr, diag=True) = the diagonal of dense kernel(x1, xr),
+\*   r = "same"   xr is the tensor object x1          r = "clone"  xr is an equal copy of x1 (the label algebra cannot tell them apart: the
+\*   replay builds the two objects)                   r = "rows"   xr = x2[..., :N1, :], another tensor with the same number of rows
+XRels == {"same", "clone", "rows"}
+HeadRows(X, n) == TIndex(X, <<EllI, Sl(0, n, NoneI), Full>>)
+DiagPair(L, r) == IF r = "rows" THEN MkLazy(L.x1, HeadRows(L.x2, N1), L.k) ELSE MkLazy(L.x1, L.x1, L.k)
+\* the class of the case: different tensors whose batch shapes differ are paired by broadcasting
+XRelClass(L, r) == IF r = "rows" /\ BatchOf(L.x1.shape) # BatchOf(L.x2.shape) THEN "bcast" ELSE r
+XRelClasses == {"same", "clone", "rows", "bcast"}
+XRelTag(c) == CASE c = "same" -> "rel:same" [] c = "clone" -> "rel:clone" [] c = "rows" -> "rel:rows" [] OTHER -> "rel:bcast"
+\* how the rows of a geometry are related position by position (row i of x1 against row i of x2, i <= N1)
+RowsRel(g) == LET eq == {i \in DOMAIN g[1] : i \in DOMAIN g[2] /\ g[2][i] = g[1][i]}
+              IN IF eq = DOMAIN g[1] THEN "equal" ELSE IF eq = {} THEN "disjoint" ELSE "partial"
+\* REJECTED VARIANT of the code-shaped side: the x1 = x2 branch of a diag=True implementation answers every request (x2 is not read)
+LKDiagShortcut(L) == LKDiagonal(MkLazy(L.x1, L.x1, L.k))
+Diag12(r) ==
+  /\ steps = 0 /\ MaxSteps >= 1 /\ N2 >= N1
+  /\ LET P == DiagPair(cur.L, r)
+         e == TDiagLast(Dense(P))
+         m == LKDiagonal(P)
+         v == LKDiagShortcut(P)
+     IN /\ cur' = Obj(LErr, m, TRUE)
+        /\ hist' = Append(hist, Record("diag12", <<>>, <<r>>, e, m, m.shape,
+                                       <<XRelTag(XRelClass(cur.L, r)), IF SameT(e, v) THEN "shortcut-agrees" ELSE "shortcut-differs", "-">>, "diag12", "none"))
+  /\ steps' = steps + 1 /\ UNCHANGED <<pat, fam, chunk, geo, env>>
+
 \* index expressions of the geometry family: the whole tensor (lazy = eager), row / column slices without an explicit stop on
 \* the other axis, the first row, one entry
 GeoIdx == {<<EllI>>, <<EllI, Sl(0, T, NoneI), Full>>, <<EllI, Full, Sl(T, NoneI, NoneI)>>, <<EllI, IntI(0), Full>>, <<EllI, IntI(0), IntI(1)>>}
@@ -775,6 +821,7 @@ Next ==
   \/ /\ fam = "geo" /\ chunk = 0
      /\ \/ Op("transpose", <<>>)
         \/ \E o \in {"diag11", "diagstack", "stack"} : Rel(o)
+        \/ \E r \in XRels : Diag12(r)
         \/ (steps = 0 /\ \E idx \in GeoIdx : Index(idx))
   \/ /\ fam = "kern" /\ chunk = 0
      /\ \/ \E idx \in KIdx(pat[1]) : KOp("kgetitem", idx, <<>>)
@@ -817,6 +864,22 @@ MultiOutputStructs == {"multitask", "lcm", "grad"}
 ZooDiagCover == HasGeo => /\ \A z \in Zoo : z[3] \in {"varying", "constant"} /\ z[2] \in CompositeStructs \cup {"plain"}
                           /\ \A s \in CompositeStructs : \E z \in Zoo : z[2] = s /\ z[3] = "varying"
                           /\ T > 1 => \A s \in {"multitask", "lcm"} : \E z \in Zoo : z[2] = s /\ z[3] = "varying" /\ z[4] = T
+\* the relation between the inputs of a diagonal request is covered: the enumerated patterns reach 'rows' (equal batch shapes) and 'bcast'
+\* (different batch shapes, also with a batched x1 against an unbatched x2 and the other way round), 'same' and 'clone' are offered on every
+\* pattern, and the geometries contain an x2 whose first N1 rows share NO row and one that shares SOME (not all) rows with x1 position by position
+GeoJobs == {j \in Jobs : j[2] = "geo"}
+DiagRelCover == HasGeo => /\ N2 >= N1
+                          /\ \E j \in GeoJobs : j[1][2] = j[1][3] /\ j[1][2] # <<>>
+                          /\ \E j \in GeoJobs : j[1][2] = <<>> /\ j[1][3] = <<>>
+                          /\ \E j \in GeoJobs : j[1][2] = <<>> /\ j[1][3] # <<>>
+                          /\ \E j \in GeoJobs : j[1][2] # <<>> /\ j[1][3] = <<>>
+                          /\ \E j \in GeoJobs : j[1][1] # <<>> /\ j[1][2] # j[1][3]
+                          /\ {"disjoint", "partial"} \subseteq {RowsRel(g) : g \in Geos}
+\* the case lattice rejects the shortcut variant: it is invisible on 'same' / 'clone' and refuted by every case with different rows
+DiagRelDiscriminates == \A i \in DOMAIN hist : hist[i].op = "diag12" =>
+                          /\ hist[i].br[1] \in {XRelTag(c) : c \in XRelClasses}
+                          /\ hist[i].br[1] \in {"rel:same", "rel:clone"} => hist[i].br[2] = "shortcut-agrees"
+                          /\ (hist[i].br[1] \in {"rel:rows", "rel:bcast"} /\ RowsRel(geo) # "equal") => hist[i].br[2] = "shortcut-differs"
 \* on the geometry family the transcribed code has no deviation at all (none of the relations falls into a class of StepClass / OpClass)
 GeoAgree == fam = "geo" => Agree
 \* declaratively: the upper right block of kernel(xs, xs), xs = cat(x1, x2), is kernel(x1, x2)
